@@ -94,7 +94,13 @@ def make_namespace(T):
             print(t)
         raise exc
 
-    return {'T': T, 'p': p, 'v': v, 'bad': bad, 'aw': aw, 'rz': rz, 'pd': pd, 'xdvhelp': help_,
+    import contextlib
+
+    @contextlib.contextmanager
+    def ctx():
+        yield
+
+    return {'T': T, 'p': p, 'v': v, 'bad': bad, 'aw': aw, 'rz': rz, 'pd': pd, 'ctx': ctx, 'xdvhelp': help_,
             'ExitTestException': exceptions.ExitTestException}
 
 
